@@ -50,9 +50,17 @@ def run(rep, tier, seed, known, part):
     os.remove(path)
     captured = {}
 
+    class Captured(Exception):
+        pass
+
     def c_new_with_fn(M, argv, pc):
+        # run the real Lut::new_with_fn up to the point where it maps its closure over the index range
         captured["args"] = argv
-        return ("lut",)
+        return M.call(NWF, argv, pc)
+
+    def c_map(M, argv, pc):
+        captured["table_closure"] = argv[1]
+        raise Captured()
 
     def c_npot(M, argv, pc):
         v = simplify(argv[0])
@@ -70,7 +78,8 @@ def run(rep, tier, seed, known, part):
     def c_context(M, argv, pc):
         return argv[0]
 
-    contracts = {r"Lut::<T>::new_with_fn::<": c_new_with_fn, r"next_power_of_two$": c_npot, r"<T as NumCast>::from::<f64>": c_numcast,
+    contracts = {r"Lut::<T>::new_with_fn::<": c_new_with_fn, r"as IntoParallelIterator>::into_par_iter$|as IntoIterator>::into_iter$": (lambda M, a, pc: a[0]),
+                 r"as ParallelIterator>::map::<|as Iterator>::map::<": c_map, r"next_power_of_two$": c_npot, r"<T as NumCast>::from::<f64>": c_numcast,
                  r"as OptionExt<T>>::context::<": c_context, r"<I as Into<u32>>::into": lambda M, a, pc: ZeroExt(16, a[0]),
                  r"<Vec<T> as Index<usize>>::index": lambda M, a, pc: R({"index": a[1]})}
     M = scalar.Machine(text, contracts)
@@ -85,6 +94,16 @@ def run(rep, tier, seed, known, part):
     WL_NEW = fn(lambda n, f: n.endswith("::new") and "VoiLutFunction" in f.ptext and f.ret == "WindowLevelTransform")
     WL_APPLY = fn(lambda n, f: n.endswith("::apply") and f.ptext.startswith("_1: &WindowLevelTransform"))
     NWF_CLO = fn(lambda n, f: n.endswith("new_with_fn::{closure#0}"))
+    NWF = fn(lambda n, f: n.endswith("::new_with_fn") and "lut" in n)
+
+    def table_closure(bits, signed_term, f):
+        """closure that Lut::new_with_fn maps over 0..size, with its captures as the real code builds them"""
+        captured.pop("table_closure", None)
+        try:
+            M.call(NWF, [BitVecVal(bits, 16), signed_term, f])
+        except Captured:
+            pass
+        return captured["table_closure"]
     RW = fn(lambda n, f: n.endswith("::new_rescale_and_window") and "lut" in n)
     GET = fn(lambda n, f: n.endswith("::get") and f.ptext.startswith("_1: &Lut<T>"))
     x, w, c, ymax, sl, ic = FPs("x w c ymax sl ic", F64)
@@ -170,17 +189,26 @@ def run(rep, tier, seed, known, part):
 
     # ---- Q3: stored value -> x: two's complement interpretation within bits stored; Lut::get ignores the bits above
     i = BitVec("i", 64)
-    sg = Bool("signed")
+    one_f, zero_f = fbits(1.0), fbits(0.0)
     for bits in range(1, 17):
+        if not (bits in (1, 8, 12, 16) or tier == "thorough" or bits == 1 + seed % 16):
+            continue
         size = 1 << bits
-        M.panics = []
-        got = M.call(NWF_CLO, [R({0: R(sg), 1: R(BitVecVal(size, 64)), 2: (lambda v, pc: v)}), i])["numcast"]
-        sx = If(And(sg, Extract(bits - 1, bits - 1, i) == 1), i - BitVecVal(size, 64), i)
-        want = fpSignedToFP(RM, sx, F64)
-        if bits in (1, 8, 12, 16) or tier == "thorough" or bits == 1 + seed % 16:
-            decide("bits_stored=%d: x fed to the transform == two's-complement value of the stored sample (signed symbolic)" % bits,
-                   And(ULT(i, BitVecVal(size, 64)), Not(got == want)), lambda m: ["index", m.eval(i, model_completion=True).as_long()],
-                   lambda m, cmd: (True, "encoding-level counterexample (index %s)" % cmd[1]))
+        for signed in (False, True):
+            M.panics = []
+            # the closure environment is built by running the real Lut::new_with_fn (signedness concrete: the capture point lies after its branches)
+            got = M.call(NWF_CLO, [R(table_closure(bits, BoolVal(signed), (lambda v, pc: v))), i])["numcast"]
+            sx = If(Extract(bits - 1, bits - 1, i) == 1, i - BitVecVal(size, 64), i) if signed else i
+            want = fpSignedToFP(RM, sx, F64)
+
+            def nat_x(m, cmd, bits=bits, signed=signed, size=size):
+                idx = cmd[-1]
+                real = nat.ask(*cmd)
+                expect = idx - size if (signed and idx >= size // 2) else idx
+                return real != str(expect), "real Lut::new_rescale(slope 1, intercept 0).get(%d) = %s, two's-complement value is %d" % (idx, real, expect)
+            decide("bits_stored=%d %s: x fed to the transform == two's-complement value of the stored sample, all indices" % (bits, "signed" if signed else "unsigned"),
+                   And(ULT(i, BitVecVal(size, 64)), Not(got == want)),
+                   lambda m, bits=bits, signed=signed: ["lutr", "i32", bits, 1 if signed else 0, one_f, zero_f, m.eval(i, model_completion=True).as_long()], nat_x)
     smp = BitVec("smp", 16)
     for bits in (8, 12, 16):
         idx = M.call(GET, [R({0: "table", 1: BitVecVal((1 << bits) - 1, 32)}), smp])["index"]
@@ -205,12 +233,16 @@ def run(rep, tier, seed, known, part):
         captured.clear()
         M.panics = []
         voi = M.call(WL_NEW, [BitVecVal(disc, 64), {0: FPVal(width, F64), 1: FPVal(center, F64)}])
-        M.call(RW, [BitVecVal(bits, 16), BoolVal(signed), {0: FPVal(slope, F64), 1: FPVal(intercept, F64)}, voi])
+        try:
+            M.call(RW, [BitVecVal(bits, 16), BoolVal(signed), {0: FPVal(slope, F64), 1: FPVal(intercept, F64)}, voi])
+        except Captured:
+            pass
         clo = captured["args"][2]
         y_max_code = simplify(clo[2].get())
+        tclo = captured["table_closure"]
 
         def f_of(index):
-            return M.call(NWF_CLO, [R({0: R(BoolVal(signed)), 1: R(BitVecVal(1 << bits, 64)), 2: R(clo)}), index])["numcast"]
+            return M.call(NWF_CLO, [R(tclo), index])["numcast"]
         i1, i2 = BitVecs("i1 i2", 64)
         i1n = (i1 + 1) & BitVecVal((1 << bits) - 1, 64)
         y1, y2 = f_of(i1), f_of(i1n)
